@@ -41,6 +41,14 @@ pub struct Net<P: Protocol> {
     pub silenced: Vec<bool>,
     /// housekeep errors returned (the event loop only logs them)
     pub housekeep_errors: Vec<(usize, String)>,
+    /// extra addresses under which a node is reachable (port forwarding, hair-pinning): (alias, node)
+    pub aliases: Vec<(SocketAddr, usize)>,
+    /// for datagrams a node sends to one of its OWN addresses: destination dialled -> source address it sees
+    pub self_source: Vec<(SocketAddr, SocketAddr)>,
+    /// connection tracking of the alias translation: (node, remote) -> alias the remote used; replies appear to come from it
+    pub conntrack: Vec<((usize, SocketAddr), SocketAddr)>,
+    /// counter that makes the salt of every call into a node different (same leading byte, so the order between nodes stays)
+    pub salt_counter: std::cell::Cell<u16>,
 }
 
 pub fn addr_of(port: u16) -> SocketAddr {
@@ -71,12 +79,20 @@ impl<P: Protocol> Net<P> {
             lost_to_nowhere: 0,
             silenced: vec![],
             housekeep_errors: vec![],
+            aliases: vec![],
+            self_source: vec![],
+            conntrack: vec![],
+            salt_counter: std::cell::Cell::new(0),
         }
     }
 
     fn salt(&self, i: usize) -> [u8; 4] {
         let v = 16 * (i as u8 + 1);
-        [if self.reverse_salts { 255 - v } else { v }, 0, 0, i as u8]
+        // the first byte fixes the order of two nodes' salted hashes; the rest differs from call to call, as two handshake
+        // objects of one node have different salts in reality
+        let c = self.salt_counter.get();
+        self.salt_counter.set(c.wrapping_add(1));
+        [if self.reverse_salts { 255 - v } else { v }, (c >> 8) as u8, c as u8, i as u8]
     }
 
     pub fn add_node(&mut self, config: &Config, nat: bool) -> usize {
@@ -121,7 +137,7 @@ impl<P: Protocol> Net<P> {
     }
 
     pub fn node_index(&self, addr: &SocketAddr) -> Option<usize> {
-        self.addrs.iter().position(|a| a == addr)
+        self.addrs.iter().position(|a| a == addr).or_else(|| self.aliases.iter().find(|(a, _)| a == addr).map(|(_, i)| *i))
     }
 
     pub fn connect(&mut self, i: usize, to: SocketAddr) {
@@ -147,6 +163,27 @@ impl<P: Protocol> Net<P> {
         };
         if self.silenced[i] {
             return None;
+        }
+        let mut w = w;
+        if self.addrs[i] != w.to {
+            // reached through an alias: remember it, replies to that remote will carry the alias as source
+            let key = (i, w.from);
+            if !self.conntrack.iter().any(|(k, _)| *k == key) {
+                self.conntrack.push((key, w.to));
+            }
+        }
+        if let Some(sender) = self.addrs.iter().position(|a| *a == w.from) {
+            if let Some((_, alias)) = self.conntrack.iter().find(|((n, remote), _)| *n == sender && *remote == w.to) {
+                if sender != i {
+                    w.from = *alias;
+                }
+            }
+        }
+        if self.addrs[i] == w.from {
+            // the node talks to itself through one of its addresses: the network decides which source it sees
+            if let Some((_, src)) = self.self_source.iter().find(|(d, _)| *d == w.to) {
+                w.from = *src;
+            }
         }
         MockTimeSource::set_time(self.now);
         if self.nodes[i].verif_socket().put_inbound(w.from, w.data) {
